@@ -12,7 +12,7 @@ import common
 from props.parts import sendflow
 
 VO_TARGETS = ["Properties/C08.vo", "Properties/C02.vo", "Properties/C03.vo", "Properties/C05.vo", "Properties/C10.vo",
-              "Properties/C11_hpack.vo", "Properties/C12.vo", "Properties/C14.vo", "Properties/C15.vo"]
+              "Properties/C11_hpack.vo", "Properties/C12.vo", "Properties/C14.vo", "Properties/C15.vo", "Properties/C19.vo", "Properties/C20.vo"]
 AUDIT = [
     ("H2V.Properties.C08", ["C08_sites_classified", "C08_table_live", "C08_cited_are_audited", "C08_inventory_nonvacuous"]),
     ("H2V.Properties.C02", ["C02_flow_code_never_panics"]),
@@ -23,6 +23,8 @@ AUDIT = [
     ("H2V.Properties.C12", ["C12_parse_never_panics", "C12_load_never_panics", "C12_reader_never_panics"]),
     ("H2V.Properties.C14", ["C14_no_assert", "C14_poll2_order"]),
     ("H2V.Properties.C15", ["C15_no_assert"]),
+    ("H2V.Properties.C19", ["C19_no_panic"]),
+    ("H2V.Properties.C20", ["C20_handover_never_panics"]),
 ]
 PARTIAL = [
     "PARTIAL. Proved (for every input / label sequence of the respective model): the frame parser, the HPACK decoder and encoder, "
